@@ -94,15 +94,45 @@ func (u *vNullUI) IsTerminal() bool                             { return false }
 func (u *vNullUI) WantBrowser() bool                            { return false }
 func (u *vNullUI) SetAutoComplete(complete func(string) string) {}
 
-// VerifC09LocateBinaries: any build id / file name length.
+// VerifC09LocateBinaries: any build id / file name length, any number of
+// mappings and locations (also none), with and without the executable /
+// build-id override of the command line.
 func VerifC09LocateBinaries() {
 	ids := []string{"", "a", "ab", "abc", "abcdef0123"}
 	files := []string{"", "f", "/bin/prog", "C:x"}
-	m := &profile.Mapping{ID: 1, BuildID: ids[vChoice("buildid", len(ids))], File: files[vChoice("file", len(files))], Start: vUint64("start"), Limit: vUint64("limit")}
-	p := &profile.Profile{Mapping: []*profile.Mapping{m}}
-	locateBinaries(p, &source{}, &vFailObjTool{}, &vNullUI{})
+	p := &profile.Profile{}
+	shape := vChoice("shape", 4) // 0: one mapping; 1: no mapping, no location; 2: no mapping, one location; 3: two mappings
+	var m *profile.Mapping
+	if shape == 0 || shape == 3 {
+		m = &profile.Mapping{ID: 1, BuildID: ids[vChoice("buildid", len(ids))], File: files[vChoice("file", len(files))], Start: vUint64("start"), Limit: vUint64("limit")}
+		p.Mapping = []*profile.Mapping{m}
+		if shape == 3 {
+			p.Mapping = append(p.Mapping, &profile.Mapping{ID: 2, File: "lib.so"})
+		}
+	}
+	if shape != 1 {
+		p.Location = []*profile.Location{{ID: 1, Mapping: m, Address: 0x10}}
+		p.Sample = []*profile.Sample{{Location: p.Location, Value: []int64{1}}}
+	} else {
+		p.Sample = []*profile.Sample{{Value: []int64{1}}}
+	}
+	p.SampleType = []*profile.ValueType{{Type: "s", Unit: "c"}}
+	src := &source{}
+	switch vChoice("override", 4) {
+	case 1:
+		src.ExecName = "/bin/override"
+	case 2:
+		src.BuildID = "feedbeef"
+	case 3:
+		src.ExecName, src.BuildID = "/bin/override", "feedbeef"
+	}
+	locateBinaries(p, src, &vFailObjTool{}, &vNullUI{})
 	vReach("C09.locate:returned")
-	vObserve(m.File)
+	vAssert(p.CheckValid() == nil, "C09.locate.valid: the profile is not valid after locating binaries")
+	if m != nil {
+		vObserve(m.File)
+	}
+	vObserve(len(p.Mapping))
 }
 
 // VerifC06TagRange (property C06): a numeric range filter keeps exactly the
